@@ -1,7 +1,7 @@
 SPECIFICATION FairSpec
 CONSTANT MaxDepth = 8
 CONSTANT AsBuiltRemove = FALSE
-CONSTANT Families = {"struct", "param"}
+CONSTANT Families = {"struct", "param", "mrec"}
 CONSTANT StructGates = {"X", "Y", "W", "Z"}
 CONSTANT StructDeclare = FALSE
 CONSTANT StructW2 = FALSE
